@@ -29,6 +29,10 @@ CLAIMED = {
   text='Coq theorems (Props/C14.v) about the model of schema_validator as used by set_type and validate, for ANY cast function (Table Schema\'s cast is a parameter): rows with all checked values valid are emitted with exactly the cast values under every policy and no handler call; raise aborts at the first offending row with its index; drop removes exactly the offending rows; ignore keeps all rows with offending values untouched; clear nulls exactly the offending fields; unchecked fields are untouched; set_type\'s transform is applied before the cast. Correspondence by vm_compute against the real set_type/validate with the cast table computed by the real tableschema; direct oracle from the property statement.',
   note='Trusted: Coq kernel+vm_compute; tableschema Field.cast_value is the oracle for the cast parameter; distinct checked field names; harness oracle.',
   technique='Coq proof (parametric in the cast) over executable model + vm_compute correspondence + direct oracle', ref='5/C14'),
+ 'C11': dict(
+  text='Coq theorems (Props/C11.v) about an executable model of join/join_with_self (key rendering, per-key aggregation index in the ordered store, target pass, full-outer tail, deduplication): for every source table the index holds under each key exactly the fold over the rows rendering that key; closed forms of sum, avg (sum/len), max, min, first, last, count, array over the matching non-null values; target rows are processed one by one in order, matched rows extended, inner drops exactly the unmatched, outer modes keep them with nulls, full-outer adds one row per unused key in key order, deduplication emits one row per distinct key; declared field types follow the regenerated AGGREGATORS table. Correspondence by vm_compute against the real join on generated tables (all modes, key shapes incl. row number, wildcard mapping, source_delete, join_with_self; >10240 keys in thorough); direct oracle = declarative relational definition.',
+  note='Trusted: Coq kernel+vm_compute; KVFile as ordered map; numeric aggregates modelled over integers (avg/median only where exactly representable), sum/min/max also over strings; set compared as a set, any as membership; harness mirror of fix/expand/order_fields for the field order; median/counters/set closed forms are validated by correspondence only.',
+  technique='Coq proof over executable model + generated constants + vm_compute correspondence + direct oracle', ref='5/C11'),
 }
 
 NOT_YET = 'check not built yet (work in progress; will be claimed once its Coq model, theorems and correspondence check exist)'
